@@ -81,4 +81,16 @@ TEXT = {
         "level_note": "As C01; trunc uninterpreted; fold specified eagerly.",
         "design_ref": "DESIGN.md §7 C19",
     },
+    "C11": {
+        "technique": "Verus contracts: index_left (recursive, all lengths) against the 'first node on or after, clamped' interval rule; the closed forms against their formulas; interpolated_value bodies against rule-of-two-nodes postconditions",
+        "level_text": "Proof: index_left (monomorphic copy at i64, recursion verified with termination) returns exactly the clamped index of the interval whose right end is the first node >= the query for every strictly increasing key list of length >= 2; linear / log-linear / linear-zero-rate closed forms equal the property's formulas (f64 copies), with value-at-node and betweenness lemmas.",
+        "level_note": "Real-number model; monomorphic copies (R5); sorted keys assumed from sort_keys.",
+        "design_ref": "DESIGN.md §7 C11",
+    },
+    "C12": {
+        "technique": "Verus: the closed forms re-verified at Dual and Dual2 against bin1_post/bin2_post with the formula's true partial derivatives (composition of the verified operator contracts)",
+        "level_text": "Proof (partial scope): the linear rule at Dual and Dual2 returns value = formula, gradient = (1-w)*grad(y1) + w*grad(y2), stored half-Hessian likewise with zero second-order terms, names = union of the two nodes' names -- i.e. exact sensitivities to the two nodes used and zero to all others.",
+        "level_note": "Partial: see coverage.uncovered_subclaims in the evidence for the rules / operations not yet under contract.",
+        "design_ref": "DESIGN.md §7 C12",
+    },
 }
